@@ -26,7 +26,7 @@ def scenarios(rng, n, tier):
             o.pop("clock")
             o["tags"] = sorted(rng.sample(range(1, 6), rng.randint(0, 3)))
             o["argshape"] = rng.choice(["none", "empty", "one", "many", "nested"])
-            o["kwshape"] = rng.choice(["none", "empty", "one", "many"])
+            o["kwshape"] = rng.choice(["none", "empty", "one", "many", "reserved"])
             o["payload"] = i + 1
             scn["ops"].append(o)
         for _ in range(rng.randint(3, 8)):
@@ -61,6 +61,7 @@ def specs(r):
     qs = []
     scn = r["scn"]
     tags = {}
+    ncalls = {}
     for i, (o, ob) in enumerate(zip(scn["ops"], r["obs"])):
         if "truncated" in ob:
             break
@@ -68,7 +69,11 @@ def specs(r):
             tags[ob["res"][1]] = set(o.get("tags") or [])
         if o["op"] == "exec":
             for (k, _d, p) in ob["invoked"]:
+                ncalls[k] = ncalls.get(k, 0) + 1
                 qs.append((f"spec eq {p} {k + 1}", {"what": "payload_constant", "key": k, "op": i, "seen": ob.get("seen", {}).get(k)}))
+            # every execution the job counts did call the callback (the arguments reached it)
+            for k, v in ob["jobs"].items():
+                qs.append((f"spec eq {v[2]} {ncalls.get(k, 0)}", {"what": "every counted execution called the callback", "key": k, "op": i}))
         if o["op"] == "get":
             before = {k for k, v in (r["obs"][i - 1]["jobs"] if i > 0 else {}).items() if v[5] == 1}
             q = set(o.get("tags") or [])
